@@ -67,7 +67,11 @@ def gen_program(rnd, pid, cls='A', nrt_only=False, feats=('send', 'tempo', 'spaw
                 k = unplayed.pop(0)
                 if cls == 'A' and rnd.random() < 0.6:
                     home[k] = rnd.choice(cnames)
-                    body.append(I('P', s=k, c=home[k]))
+                    if 'quant' in feats and home[k] in clocks and rnd.random() < 0.5:
+                        q = rnd.choice([TU, 2 * TU, 4 * TU, TU // 2])
+                        body.append(I('P', s=k, c=home[k], a=q, b=rnd.choice([0, 0, TU // 2, -TU // 2, q // 2]) if q >= TU else 0))
+                    else:
+                        body.append(I('P', s=k, c=home[k]))
                 else:
                     home[k] = c
                     body.append(I('P', s=k, c=''))
@@ -78,6 +82,10 @@ def gen_program(rnd, pid, cls='A', nrt_only=False, feats=('send', 'tempo', 'spaw
                     body.append(I('T', c=tc, **dict(zip('ab', rnd.choice(TEMPI)))))
                 elif c in clocks and tempo_owner.setdefault(c, r) == r:
                     body.append(I('T', c=c, **dict(zip('ab', rnd.choice(TEMPI)))))
+            elif x < 0.8 and 'stop' in feats:
+                cands = [o for o in roots if o != r and home.get(o) == c]
+                if cands:
+                    body.append(I('ST', s=rnd.choice(cands)))
             elif x < 0.84 and 'pause' in feats:
                 # pause / resume a routine living on the same clock that has been played already
                 # only routines started by the main thread: they are certainly playing (on this clock) by then;
@@ -236,6 +244,6 @@ def nontrivial(prog):
     """program with a tempo change, a cross-clock spawn or a nested/None-latency send"""
     for body in prog['routines'].values():
         for i in body:
-            if i['op'] in ('T', 'X', 'K', 'KC', 'W') or (i['op'] == 'P' and i['c']) or (i['op'] == 'S' and (i['nk'] or i['b'])):
+            if i['op'] in ('T', 'X', 'K', 'KC', 'W', 'ST') or (i['op'] == 'P' and i['a']) or (i['op'] == 'P' and i['c']) or (i['op'] == 'S' and (i['nk'] or i['b'])):
                 return True
     return False
